@@ -116,6 +116,9 @@ namespace verif
         // request and response each decode their own half of the input: decoded one after the other
         // from a single stream the request used it up in about half of all cases and the response was
         // the all-defaults one (measured: 145 of 300 responses were "100, no headers, no body")
+        GroupingLocale loc(GroupingLocale::wanted(data, size));
+        if (loc.on)
+            rep.label("global-locale-groups-digits");
         Choices c(data, size / 2);
         Choices c2(data + size / 2, size - size / 2);
         ReqSpec req   = reqgen::make(c, 32 * 1024);
